@@ -7,8 +7,43 @@ every token position of every non-declaring label of DocGen models (delete, dupl
 unterminated comment, truncation, undeclared identifier, wrong type, side effect, unbalanced bracket), are injected;
 the document outside the label and the diagnostics outside the label must equal those of the fault-free model.
 Declaration blocks: a fault in declaration i leaves declarations 1..i-1 present and unchanged."""
-import json, os, random, re
+import glob, json, os, random, re
 import vf, docgen, xmlgen, faults, lrconf
+
+
+def _conv(a):
+    if isinstance(a, bool):
+        return {"n": 0, "s": "true" if a else "false"}
+    if isinstance(a, int):
+        return {"n": a, "s": ""}
+    return {"n": 0, "s": str(a) if a is not None else ""}
+
+
+def depth_conformance(c, xml_texts):
+    """B3 for BuilderDepth.tla: recorded callback traces (depths before/after every callback) of the given documents and of the
+    repository's models must agree with the stack effects LRDepth.tla relies on"""
+    jobs = [{"id": "dx%d" % k, "entry": "xml_buffer", "text": t, "analysis": False, "walk": False} for k, t in enumerate(xml_texts)]
+    jobs += [{"id": "repo:" + os.path.basename(f), "entry": "xml_file", "file": f, "analysis": False, "walk": False} for f in sorted(glob.glob(os.path.join(vf.REPO, "test/models/*.xml")))]
+    res = vf.run_jobs(jobs, c.run_dir, variant="plain", harness="record", name="depth")
+    tr = []
+    for j in jobs:
+        r = res[j["id"]]
+        if "events" not in r:
+            continue
+        tr.append({"id": j["id"], "ev": [{"cb": e["cb"], "a": [_conv(x) for x in e["a"]], "f": e["f"], "t": e["t"], "fr": e["fr"], "f0": e.get("f0", 0), "t0": e.get("t0", 0),
+                                           "fr0": e.get("fr0", 1), "threw": bool(e.get("threw"))} for e in r["events"]]})
+    path = os.path.join(c.run_dir, "depthtraces.ndjson")
+    vf.write_ndjson(path, tr)
+    tv = vf.run_tlc("DepthTrace", "DepthTrace.cfg", c.run_dir, env={"TRACES": path}, timeout=3000, xmx="16g", workers=1, keep_out=False)
+    c.add_tlc("DepthTrace", tv, "recorded callback traces vs BuilderDepth!Eff")
+    e = tv.emitted[0]
+    c.cov["depth_traces"] = e["traces"]
+    c.cov["depth_events"] = e["events"]
+    c.cov["depth_callbacks_without_entry"] = sorted(e["unknown"])
+    c.cov["depth_disagreements"] = len(e["bad"])
+    for b in e["bad"][:3]:
+        print("DRIFT property=C16 BuilderDepth.tla: %s%s moves the stacks from %s to %s in %s" % (b["cb"], [x["s"] or x["n"] for x in b["a"]], b["before"], b["after"], b["id"]))
+    return e["traces"]
 
 DECL_NAMES = {  # declaration line -> names it declares (PREAMBLE lines and DocGen's GExtra pool)
     "int i;": ["i"], "int j = 1;": ["j"], "clock x;": ["x"], "chan c;": ["c"], "broadcast chan b;": ["b"], "const int N = 2;": ["N"], "int a[3];": ["a"],
@@ -203,7 +238,9 @@ def run(tier):
         if want != got:
             c.finding("c16:decl:%s:prefix" % fc, "a %s fault in declaration %d (`%s` -> `%s`) changed or dropped a declaration that precedes it" % (fc, k, lines[k], ftext),
                       dict(rep, expected=want, got=got))
-    c.cov["traces_validated_against_impl"] = ncmp + ndecl
+    sample_xml = [jobs[2 * k]["text"] for k in range(min(len(base), 60 if quick else 400))] + [jobs[2 * len(base) + 2 * k]["text"] for k in range(0, len(cases), max(1, len(cases) // (150 if quick else 1500)))]
+    ntr = depth_conformance(c, sample_xml)
+    c.cov["traces_validated_against_impl"] = ncmp + ndecl + ntr
     c.cov["evaluations"] = 2 * ncmp + ndecl
     c.cov["distinct_nontrivial"] = ncmp
     c.cov.update({"models": len(base), "label_faults_compared": ncmp, "declaration_faults_compared": ndecl, "by_fault_class": by_class})
